@@ -96,8 +96,9 @@ class SimThreads:
     # -- tracing ----------------------------------------------------------------
     def _global_trace(self, frame: Any, event: str, arg: Any) -> Any:
         if event == "call" and frame.f_code.co_filename.startswith(self.root):
-            if self.opcode:
-                frame.f_trace_opcodes = True
+            # (opcode-level events are not used: CPython 3.12.1 segfaults with f_trace_opcodes inside generator
+            # expressions under a Python trace function -- seen in the first thorough run -- so the finest
+            # granularity is "every line event", dedupe="none")
             return self._local_trace
         return None
 
